@@ -162,6 +162,7 @@ int main(int argc, char **argv)
       {"k-continuous-exp2", K_CONT, 5, 0, 0, 2.0, true, {}},
       {"k-staged", K_STAGED, 2, 2, 0, 1.0, false, {}},
       {"k-staged-equil1-exp2", K_STAGED, 3, 2, 1, 2.0, false, {}},
+      {"k-staged-run-continues-after-last-stage", K_STAGED, 1, 2, 0, 1.0, false, {}},
       {"k-lambdaSchedule", K_SCHED, 2, 2, 0, 1.0, false, {0.0, 0.3, 1.0}},
       {"k-lambdaSchedule-exp3-nonzero-start", K_SCHED, 2, 2, 0, 3.0, false, {0.2, 0.5, 1.0}},
       {"decoupling-continuous", D_CONT, 4, 0, 0, 2.0, true, {}},
@@ -287,7 +288,10 @@ int main(int argc, char **argv)
           if (sc.kind == K_STAGED || sc.kind == K_SCHED || sc.kind == D_STAGED) {
             for (size_t i = 0; i < ref.ti.size(); i++) {
               int stg = (int) i;  // lines appear in stage order
-              double l = sc.kind == K_SCHED ? sc.lsched[stg] : double(stg) / sc.M;
+              // a run that goes on after the last stage stays in it: further lines repeat its lambda, each with the mean
+              // over its own targetNumSteps steps
+              int stg_l = std::min(stg, sc.M);
+              double l = sc.kind == K_SCHED ? sc.lsched[stg_l] : double(stg_l) / sc.M;
               if (sc.kind == D_STAGED) l = 1.0 - l;
               double kd = (sc.kind == D_STAGED) ? (K0 - 0.0) : (K1 - K0);
               auto mean_over = [&](int a, int b) {
